@@ -11,7 +11,7 @@ import DclabModel.DriveUtil
     ext <0|1> | poly <key> <rows> <cols> | basin <common 0|1> <feats|-> | be <names|->    → ok
     flag <ml|temp>                                                                        → ok
     rect <firstLen|-> <firstTraceWidth|-> <h,w|->   inputs of rectify_metadata            → ok
-    viol | violcopy | violcompress        → sorted cue identifiers
+    viol | violcopy | violcompress        → sorted cue identifiers, or `raises` (F36: size unknown)
     oldindexraises                        → 0|1 (behaviour before F13)
     exit <alerts> <violations>            → exit status of dclab-verify-dataset
 -/
@@ -96,9 +96,14 @@ def handle (d : D) (line : String) : D × String :=
     match optNat fl, optNat tw, r with
     | some fl, some tw, some r => ({ d with firstLen := fl, firstTraceWidth := tw, roiSource := r }, "ok")
     | _, _, _ => (d, "bad-op")
-  | ["viol"] => (d, showCues (violations d))
-  | ["violcopy"] => (d, showCues (violations (copyD d)))
-  | ["violcompress"] => (d, showCues (violations (compressD d)))
+  | ["viol"] =>
+    (d, if sizeUndetermined (cfgGet d.cfg) d then "raises" else showCues (violations d))
+  | ["violcopy"] =>
+    (d, if sizeUndetermined (cfgGet (copyD d).cfg) (copyD d) then "raises"
+        else showCues (violations (copyD d)))
+  | ["violcompress"] =>
+    (d, if sizeUndetermined (cfgGet (compressD d).cfg) (compressD d) then "raises"
+        else showCues (violations (compressD d)))
   | ["oldindexraises"] => (d, if indexCheckRaisedOld (cfgGet d.cfg) d then "1" else "0")
   | ["exit", a, v] => match a.toNat?, v.toNat? with
     | some a, some v => (d, toString (exitCode a v))
